@@ -55,8 +55,9 @@ func (s *state) sync(addrs stringset.Set) {
 		}
 	}
 
-	for addr := range s.healthy {
+	for addr := range s.all {
 		if !addrs.Has(addr) {
+			s.all.Remove(addr)
 			s.healthy.Remove(addr)
 			delete(s.trend, addr)
 		}
